@@ -227,7 +227,11 @@ fn generate(cli: &Cli) -> (Vec<Case>, Vec<String>) {
         for (fname, pkt) in &frames {
             // completion times: 2 s, 4 s, 6 s after Client Information (sent at t = 0)
             let completion_ms = 2_000 * (stage as u64 + 1);
-            let spec = BaseSpec { name: "race", intent: Intent::Login, secret: true, lat: [2_000, 2_000, 2_000], extras: vec![(completion_ms - 100, pkt.clone())], no_target: false, ci_delay_ms: 0 };
+            // after a race in discovery or filtering the connection goes on waiting for two more
+            // keep-alive periods: a frame that was swallowed or a stream that lost its framing shows
+            // up as a missed echo (timeout Disconnect instead of the Transfer)
+            let lat = if stage < 2 { [2_000, 2_000, 40_000] } else { [2_000, 2_000, 2_000] };
+            let spec = BaseSpec { name: "race", intent: Intent::Login, secret: true, lat, extras: vec![(completion_ms - 100, pkt.clone())], no_target: false, ci_delay_ms: 0 };
             let base = build_base(&spec, cli.seed ^ 0xf4 ^ (stage as u64) << 8);
             let brun = run(&base);
             let Some(sent) = brun.client.sent.iter().find(|s| s.label.starts_with("Extra")) else {
@@ -253,7 +257,7 @@ fn generate(cli: &Cli) -> (Vec<Case>, Vec<String>) {
             // three segments: the length prefix (and a bit), a part of the body, the rest — the
             // completion lands between the second and the third (frame starts 100 ms earlier:
             // segments at -200 ms, -100 ms, +100 ms around the completion)
-            let spec3 = BaseSpec { name: "race3", intent: Intent::Login, secret: true, lat: [2_000, 2_000, 2_000], extras: vec![(completion_ms - 200, pkt.clone())], no_target: false, ci_delay_ms: 0 };
+            let spec3 = BaseSpec { name: "race3", intent: Intent::Login, secret: true, lat, extras: vec![(completion_ms - 200, pkt.clone())], no_target: false, ci_delay_ms: 0 };
             let base3 = build_base(&spec3, cli.seed ^ 0xf4 ^ (stage as u64) << 8);
             let brun3 = run(&base3);
             if let Some(sent3) = brun3.client.sent.iter().find(|s| s.label.starts_with("Extra")) {
